@@ -5,8 +5,8 @@ pid=$1; tag=$2; src=/tmp/seedout-$pid-$tag; dst=/verif/seeded/$pid-$tag; wt=/tmp
 mkdir -p $dst && cp $src/patch.diff $src/demo.py $dst/ && cp $src/notes.md $dst/notes.md 2>/dev/null
 git -C /repo worktree add -q --detach $wt HEAD || exit 2
 ( cd $wt
-  /venv/bin/python $dst/demo.py $wt >/dev/null 2>&1; echo "demo_without_patch_rc=$?"
+  timeout 300 /venv/bin/python $dst/demo.py $wt >/dev/null 2>&1; echo "demo_without_patch_rc=$?"
   git apply $dst/patch.diff || echo "PATCH DOES NOT APPLY"
   /venv/bin/python -m pytest -q -p no:cacheprovider 2>&1 | tail -1
-  /venv/bin/python $dst/demo.py $wt >/tmp/vs-demo.out 2>&1; echo "demo_with_patch_rc=$?"; tail -3 /tmp/vs-demo.out )
+  timeout 300 /venv/bin/python $dst/demo.py $wt >/tmp/vs-demo.out 2>&1; echo "demo_with_patch_rc=$?"; tail -3 /tmp/vs-demo.out )
 git -C /repo worktree remove --force $wt
